@@ -8,6 +8,8 @@ Python counterparts (the tree WITH the repairs F-C07, F-C07b, F-C07c):
 * `TaxBenefitSystem.get_parameters_at_instant` (`functools.lru_cache`, keyed by `(self, instant)`,
   `maxsize = 128`, ONE cache for the whole process: a baseline and its reforms share it) ↦ `viewAt`
   on a `World` (`memo`, `memoTouch`, `cacheSize`)
+* `TaxBenefitSystem.load_extension` (`cache_clear()`, then `ParameterNode.merge` IN PLACE) ↦ `Op.extend`
+  (`mergeInto`); `_get_baseline_parameters_at_instant` ↦ `Read.baseView` (`rootOf`)
 * `TaxBenefitSystem.load_parameters`                    ↦ `Op.reload`   (tree built, `preprocess_parameters`
   hook run, tree replaced, memo emptied — in that order)
 * `Reform.__init__` (`self.parameters = baseline.parameters`) ↦ `Op.newReform`
@@ -26,9 +28,9 @@ Python counterparts (the tree WITH the repairs F-C07, F-C07b, F-C07c):
 * `VectorialAsofDateParameterNodeAtInstant.build_from_node` / `__getitem__` ↦ `buildVec asofLt` / `asofIndex`
 
 Abstractions. A numpy record array is a list of rows (`VRow`), a float array a list of leaf rows;
-instants are proleptic ordinals (as in `Param.lean`); object identity is erased (the documented
-routes never mutate a tree in place: `modify_parameters` works on a deep copy, `load_parameters`
-builds a new tree), so a tree is a value. Memo keys keep the *spelling* of the instant argument
+instants are proleptic ordinals (as in `Param.lean`); tree OBJECTS have an identity (`World.heap`):
+a reform refers to its baseline's object until one of them replaces its tree (`modify_parameters`
+installs a deep copy, `load_parameters` a new tree), and `load_extension` changes the object in place. Memo keys keep the *spelling* of the instant argument
 (`"2018-01-01"`, `Instant`, `Period` … are different `lru_cache` keys) as an opaque code `form`.
 -/
 namespace OFCore.PView
@@ -154,15 +156,19 @@ structure Key where
   date : Int
 deriving DecidableEq, Repr
 
-/-- a tax-benefit system as far as parameters go: its current tree (`None` until loaded) and, for a
-    reform, its baseline -/
-structure SysRec (V : Type) where
-  tree     : Option (PNode V)
+/-- a tax-benefit system as far as parameters go: a REFERENCE to its current tree object (`None` until
+    loaded) and, for a reform, its baseline. `Reform.__init__` copies the reference
+    (`self.parameters = baseline.parameters`): until one of them replaces its tree, a reform and its
+    baseline hold the same object, and an in-place change (`load_extension`) is seen by both. -/
+structure SysRec where
+  tree     : Option Nat
   baseline : Option Nat
 
-/-- all the systems alive in the process (index = identity) and the one shared memo -/
+/-- the process: the tree objects ever built (index = identity), the systems alive (index = identity)
+    and the one shared memo -/
 structure World (V : Type) where
-  systems : List (SysRec V)
+  heap    : List (PNode V)
+  systems : List SysRec
   memo    : List (Key × Option (Snap V))
 
 /-- `self.parameters.get_at_instant(key)`, `None` when `self.parameters is None` -/
@@ -186,9 +192,13 @@ def memoErase (k : Key) : List (Key × α) → List (Key × α)
 def memoTouch (k : Key) (x : α) (m : List (Key × α)) : List (Key × α) :=
   ((k, x) :: memoErase k m).take cacheSize
 
+/-- `system.parameters`: the object the system refers to, as it is NOW -/
 def World.treeOf (w : World V) (s : Nat) : Option (PNode V) :=
   match w.systems[s]? with
-  | some r => r.tree
+  | some r =>
+    match r.tree with
+    | some i => w.heap[i]?
+    | none => none
   | none => none
 
 /-- `system.get_parameters_at_instant(instant)`: a hit returns the memoised object, a miss evaluates
@@ -196,11 +206,11 @@ def World.treeOf (w : World V) (s : Nat) : Option (PNode V) :=
 def viewAt (w : World V) (s form : Nat) (d : Int) : Option (World V × Option (Snap V)) :=
   match w.systems[s]? with
   | none => none
-  | some r =>
+  | some _ =>
     match memoFind ⟨s, form, d⟩ w.memo with
     | some v => some ({ w with memo := memoTouch ⟨s, form, d⟩ v w.memo }, v)
     | none =>
-      let v := snapshot r.tree d
+      let v := snapshot (w.treeOf s) d
       some ({ w with memo := memoTouch ⟨s, form, d⟩ v w.memo }, v)
 
 def isNode : PNode V → Bool
@@ -208,8 +218,23 @@ def isNode : PNode V → Bool
   | .param _ => false
   | .scale _ _ => false
 
-def setTree (systems : List (SysRec V)) (s : Nat) (t : PNode V) : List (SysRec V) :=
-  systems.modify s (fun r => { r with tree := some t })
+/-- `system.parameters = new_tree` followed by `cache_clear()`: a NEW object, referred to by `s` only -/
+def install (w : World V) (s : Nat) (t : PNode V) : World V :=
+  { heap := w.heap ++ [t],
+    systems := w.systems.modify s (fun r => { r with tree := some w.heap.length }),
+    memo := [] }
+
+/-- `_get_baseline_parameters_at_instant`: up the chain of baselines (`fuel` bounds the walk; a
+    baseline is always older than its reform) -/
+def rootOf (systems : List SysRec) : Nat → Nat → Nat
+  | 0, s => s
+  | fuel + 1, s =>
+    match systems[s]? with
+    | some r =>
+      match r.baseline with
+      | some b => rootOf systems fuel b
+      | none => s
+    | none => s
 
 inductive Obs (V : Type) where
   /-- a read: the value (`ok none` = Python's `None`) and what the tracer recorded -/
@@ -226,18 +251,24 @@ inductive Read where
   | tree (s : Nat) (path : List String) (d : Int)
   /-- inside a formula of a simulation on `s`: `parameters(<instant>).<path>` -/
   | formula (s : Nat) (traced : Bool) (form : Nat) (d : Int) (path : List String)
+  /-- `system._get_baseline_parameters_at_instant(instant).<path>`: the view of the root baseline -/
+  | baseView (s form : Nat) (d : Int) (path : List String)
+
+/-- one view read (shared by `view` and `baseView`) -/
+def readViewOf (w : World V) (s form : Nat) (d : Int) (path : List String) : World V × Obs V :=
+  match viewAt w s form d with
+  | none => (w, .failed "no such system")
+  | some (w', root) => (w', .value (navView root path) [])
 
 /-- one read: the state after it (only the memo can change) and what the caller observes -/
 def doRead (w : World V) : Read → World V × Obs V
-  | .view s form d path =>
-    match viewAt w s form d with
-    | none => (w, .failed "no such system")
-    | some (w', root) => (w', .value (navView root path) [])
+  | .view s form d path => readViewOf w s form d path
+  | .baseView s form d path => readViewOf w (rootOf w.systems w.systems.length s) form d path
   | .tree s path d =>
     match w.systems[s]? with
     | none => (w, .failed "no such system")
-    | some r =>
-      match r.tree with
+    | some _ =>
+      match w.treeOf s with
       | none => (w, .value (.error "TypeError: None") [])
       | some t => (w, .value (readTreeAt t path d) [])
   | .formula s traced form d path =>
@@ -263,6 +294,12 @@ def runProg (w : World V) : ModProg V → World V × Except String (PNode V)
   | .ret r => (w, r)
   | .read rd k => runProg (doRead w rd).1 (k (doRead w rd).2)
 
+/-- `ParameterNode.merge(other)`: `add_child` child by child, in `other`'s order; a name already present
+    raises `ValueError`, and what was added before it STAYS (the flag is "completed") -/
+def mergeInto (cs : List (String × PNode V)) : List (String × PNode V) → List (String × PNode V) × Bool
+  | [] => (cs, true)
+  | (k, c) :: r => if (assoc k cs).isSome then (cs, false) else mergeInto (cs ++ [(k, c)]) r
+
 inductive Op (V : Type) where
   /-- `system.get_parameters_at_instant(instant).<path>` -/
   | readView (s form : Nat) (d : Int) (path : List String)
@@ -270,6 +307,8 @@ inductive Op (V : Type) where
   | readTree (s : Nat) (path : List String) (d : Int)
   /-- inside a formula of a simulation on `s`: `parameters(<instant>).<path>` -/
   | readFormula (s : Nat) (traced : Bool) (form : Nat) (d : Int) (path : List String)
+  /-- any read (`Read.baseView` included) -/
+  | read (rd : Read)
   /-- `SomeReform(baseline)` (the body of `apply()` is the operations that follow) -/
   | newReform (b : Nat)
   /-- `reform.modify_parameters(f)`: `f` receives the copy of the reform's tree, may read the process
@@ -279,6 +318,9 @@ inductive Op (V : Type) where
       `preprocess_parameters` (the only user code that runs inside `load_parameters`; `noHook` when
       the attribute is `None`) -/
   | reload (s : Nat) (cs : List (String × PNode V)) (hook : PNode V → ModProg V)
+  /-- `system.load_extension(package)` where the package's `parameters/` directory holds `ext`: the
+      tree OBJECT is changed in place -/
+  | extend (s : Nat) (ext : List (String × PNode V))
 
 /-- a modifier that reads nothing -/
 def pureMod (f : PNode V → Except String (PNode V)) : PNode V → ModProg V := fun t => .ret (f t)
@@ -289,13 +331,16 @@ def noHook : PNode V → ModProg V := fun t => .ret (.ok t)
 /-- One operation: the new state of the process and what the caller observes. `modify` and `reload`
     are the sub-steps the code performs, IN THE CODE'S ORDER: (1) take the input tree (deep copy of the
     reform's own tree / the tree built from the directory); (2) run the user function, whose reads hit
-    the memo while the system still has its FORMER tree; (3) install the returned tree and only then
-    empty the memo. Emptying the memo before (2) would let a read made during (2) re-memoise a view of
-    the former tree that survives the installation (`stepClearFirst` below shows it). -/
+    the memo while the system still has its FORMER tree; (3) install the returned tree — a new object —
+    and only then empty the memo. Emptying the memo before (2) would let a read made during (2)
+    re-memoise a view of the former tree that survives the installation (`stepClearFirst` below shows
+    it). `extend` empties the memo FIRST and then merges in place: no user code runs in between, and a
+    merge that stops half-way (a name conflict) has already changed the object. -/
 def step (w : World V) : Op V → World V × Obs V
   | .readView s form d path => doRead w (.view s form d path)
   | .readTree s path d => doRead w (.tree s path d)
   | .readFormula s traced form d path => doRead w (.formula s traced form d path)
+  | .read rd => doRead w rd
   | .newReform b =>
     match w.systems[b]? with
     | none => (w, .failed "no such system")
@@ -307,14 +352,14 @@ def step (w : World V) : Op V → World V × Obs V
       match r.baseline with
       | none => (w, .failed "AttributeError: not a reform")   -- only `Reform` has the method
       | some _ =>
-        match r.tree with
+        match w.treeOf s with
         | none => (w, .failed "no parameters")
         | some t =>                                   -- (1) `copy.deepcopy(self.parameters)`: modifiers accumulate
           match runProg w (f t) with                  -- (2) `modifier_function(copy)`, reads included
           | (w1, .error e) => (w1, .failed e)         -- the modifier raised: nothing replaced, nothing cleared
           | (w1, .ok t') =>
             if isNode t' then                         -- `isinstance(reform_parameters, ParameterNode)`
-              ({ systems := setTree w1.systems s t', memo := [] }, .done)   -- (3) install, then clear
+              (install w1 s t', .done)                -- (3) install, then clear
             else (w1, .done)                          -- `return ValueError(…)`: silently nothing
   | .reload s cs hook =>
     match w.systems[s]? with
@@ -322,20 +367,31 @@ def step (w : World V) : Op V → World V × Obs V
     | some _ =>
       match runProg w (hook (.node cs)) with          -- `ParameterNode("", directory_path=…)`, then the hook
       | (w1, .error e) => (w1, .failed e)
-      | (w1, .ok t') => ({ systems := setTree w1.systems s t', memo := [] }, .done)
+      | (w1, .ok t') => (install w1 s t', .done)
+  | .extend s ext =>
+    match w.systems[s]? with
+    | none => (w, .failed "no such system")
+    | some r =>                                       -- `cache_clear()` first, then `self.parameters.merge(…)`
+      match r.tree with
+      | none => ({ w with memo := [] }, .failed "AttributeError: None")
+      | some i =>
+        match w.heap[i]? with
+        | some (.node cs) =>
+          ({ w with heap := w.heap.set i (.node (mergeInto cs ext).1), memo := [] },
+            if (mergeInto cs ext).2 then .done else .failed "ValueError: already a child")
+        | some (.param _) => ({ w with memo := [] }, .failed "AttributeError")
+        | some (.scale _ _) => ({ w with memo := [] }, .failed "AttributeError")
+        | none => ({ w with memo := [] }, .failed "dangling reference")
 
 /-- NOT the code's order (kept to show that the order matters): the memo is emptied BEFORE the
     modifier runs, and not after the tree is installed. -/
 def stepClearFirst (w : World V) (s : Nat) (f : PNode V → ModProg V) : World V :=
-  match w.systems[s]? with
+  match w.treeOf s with
   | none => w
-  | some r =>
-    match r.tree with
-    | none => w
-    | some t =>
-      match runProg { w with memo := [] } (f t) with
-      | (w1, .error _) => w1
-      | (w1, .ok t') => if isNode t' then { w1 with systems := setTree w1.systems s t' } else w1
+  | some t =>
+    match runProg { w with memo := [] } (f t) with
+    | (w1, .error _) => w1
+    | (w1, .ok t') => if isNode t' then { install w1 s t' with memo := w1.memo } else w1
 
 /-- a finite history -/
 def run (w : World V) : List (Op V) → World V
@@ -343,16 +399,33 @@ def run (w : World V) : List (Op V) → World V
   | op :: ops => run (step w op).1 ops
 
 /-- a fresh process: one system without parameters, nothing memoised -/
-def World.init : World V := ⟨[⟨none, none⟩], []⟩
+def World.init : World V := ⟨[], [⟨none, none⟩], []⟩
+
+/-- a process whose systems 0 … n-1 were each given their own tree (system `i` refers to object `i`) -/
+def World.ofTrees (ts : List (PNode V × Option Nat)) : World V :=
+  ⟨ts.map (·.1), (List.range ts.length).zip (ts.map (·.2)) |>.map (fun p => ⟨some p.1, p.2⟩), []⟩
 
 /-- the system an operation replaces the tree of -/
 def Op.target : Op V → Option Nat
   | .modify s _ => some s
   | .reload s _ _ => some s
+  | .extend s _ => some s
   | .readView .. => none
   | .readTree .. => none
   | .readFormula .. => none
+  | .read _ => none
   | .newReform _ => none
+
+/-- does the operation change a tree OBJECT in place (so that every system referring to it is affected) -/
+def Op.inPlace : Op V → Bool
+  | .extend .. => true
+  | .modify .. => false
+  | .reload .. => false
+  | .readView .. => false
+  | .readTree .. => false
+  | .readFormula .. => false
+  | .read _ => false
+  | .newReform _ => false
 
 /-! ## Vectorial nodes -/
 
